@@ -1,6 +1,6 @@
 (* Props/C09.v — every font the library writes is a valid, self-consistent sfnt. *)
 From AV Require Import Base.Prelude Gen.ReaderPrims Gen.ContainerLayouts Model.Reader Model.Container
-  Model.Sfnt Proofs.EncodeProofs Proofs.ContainerProofs Proofs.SfntProofs.
+  Model.Sfnt Proofs.EncodeProofs Proofs.ContainerProofs Proofs.SfntProofs Proofs.SfntValid.
 From Coq Require Import Sorted.
 Open Scope Z_scope.
 
@@ -52,7 +52,98 @@ Theorem C09_reads_back : forall m ver tables file idx,
 Proof. exact build_reads_back. Qed.
 Print Assumptions C09_reads_back.
 
-(* non-vacuity, and the boolean validity judge (used on the implementation's output) accepts it *)
+(* ---------- THE statement: the structural judge accepts every file the writer produces.
+   valid_sfnt = searchRange/entrySelector/rangeShift, strictly ascending tags, 4-aligned contiguous
+   in-bounds offsets ending at end of file, zero padding, per-table checksums (head's with
+   checkSumAdjustment zeroed), whole-file checksum 0xB1B0AFBA.  Hypotheses, each needed (witnesses below):
+     tables_wf tables      the BTreeMap invariant (ascending distinct tags: C09_directory_sorted discharges it
+                           for any insertion sequence), exactly one head, whose 4-byte placeholder at 8..12 is
+                           zero (the `12 <= len` clause of head_ok follows from the placeholder clause, and
+                           patch_head panics on a shorter head anyway: C09_head_placeholder_len)
+     u32 tags              tags are u32 in the Rust; the directory stores them in 4 bytes
+     m = Release -> < 4096 a debug build panics in the u16 search-range arithmetic from 4096 tables on
+                           (so nothing is assumed there); a release build wraps and writes a wrong
+                           searchRange (known finding C09-search-range-overflow)
+   NOT needed, so not assumed: table bytes in [0,256) (payloads are copied, never decoded), a bound on
+   table lengths / offsets / file size (`directory` returns Err when an offset or length does not fit
+   u32), 1 <= len tables (implied by the head), len tables <= 65535 (Err), any condition on `ver`. *)
+Theorem C09_written_font_is_valid : forall m ver tables file,
+  build_font m ver tables = Ok file -> tables_wf tables ->
+  Forall (fun tb => u32v (fst tb)) tables ->
+  (m = Release -> len tables < 4096) ->
+  valid_sfnt file = true.
+Proof. exact build_valid. Qed.
+Print Assumptions C09_written_font_is_valid.
+
+(* the builder as the library drives it: ANY insertion sequence (duplicates replace, any order) that
+   inserts a head; hypotheses are on the inserted tables only *)
+Theorem C09_inserted_font_is_valid : forall m ver ins file,
+  build_from_inserts m ver ins = Ok file ->
+  In HEAD_TAG (map fst ins) ->
+  Forall (fun tb => u32v (fst tb) /\ (fst tb = HEAD_TAG -> head_ok (snd tb))) ins ->
+  (m = Release -> len ins < 4096) ->
+  valid_sfnt file = true.
+Proof. exact build_from_inserts_valid. Qed.
+Print Assumptions C09_inserted_font_is_valid.
+
+(* same, hypotheses on the resulting map (only the head that survives replacement has to be well-formed) *)
+Theorem C09_inserted_font_is_valid_map : forall m ver ins file,
+  build_from_inserts m ver ins = Ok file ->
+  count_head (table_map ins) = 1%nat ->
+  Forall (fun tb => u32v (fst tb) /\ (fst tb = HEAD_TAG -> head_ok (snd tb))) (table_map ins) ->
+  (m = Release -> len (table_map ins) < 4096) ->
+  valid_sfnt file = true.
+Proof. exact build_from_inserts_valid_map. Qed.
+Print Assumptions C09_inserted_font_is_valid_map.
+
+Theorem C09_head_placeholder_len : forall b, firstn 4 (skipn 8 b) = [0; 0; 0; 0] -> 12 <= len b.
+Proof. exact head_placeholder_len. Qed.
+Print Assumptions C09_head_placeholder_len.
+
+(* (a) the hypotheses are satisfiable: cmap (5 bytes), head (18), maxp (6), post (3), release build *)
+Example C09_valid_hyps_satisfiable :
+  tables_wf wit_tables /\ Forall (fun tb => u32v (fst tb)) wit_tables /\
+  exists file, build_font Release 65536 wit_tables = Ok file /\ len file = 116.
+Proof. exact wit_tables_hyps. Qed.
+
+(* (b) each hypothesis is needed: all the others hold, the writer returns Ok, the judge rejects *)
+Example C09_sorted_needed :          (* [head; cmap]: not in tag order *)
+  count_head wit_unsorted = 1%nat /\
+  Forall (fun tb => fst tb = HEAD_TAG -> head_ok (snd tb)) wit_unsorted /\
+  Forall (fun tb => u32v (fst tb)) wit_unsorted /\
+  judged (build_font Debug 65536 wit_unsorted) = Some false.
+Proof. exact wit_unsorted_needed. Qed.
+
+Example C09_one_head_needed :        (* [cmap]: nothing carries checkSumAdjustment *)
+  keys_sorted wit_nohead /\
+  Forall (fun tb => fst tb = HEAD_TAG -> head_ok (snd tb)) wit_nohead /\
+  Forall (fun tb => u32v (fst tb)) wit_nohead /\
+  judged (build_font Debug 65536 wit_nohead) = Some false.
+Proof. exact wit_nohead_needed. Qed.
+
+Example C09_zero_placeholder_needed : (* head whose bytes 8..12 are 0,0,0,1 on entry *)
+  keys_sorted wit_dirty /\ count_head wit_dirty = 1%nat /\
+  Forall (fun tb => u32v (fst tb)) wit_dirty /\
+  judged (build_font Debug 65536 wit_dirty) = Some false.
+Proof. exact wit_dirty_needed. Qed.
+
+Example C09_head_length_enforced :   (* not a hypothesis: a head shorter than 12 bytes panics *)
+  build_font Debug 65536 [(HEAD_TAG, [1; 2; 3])] = Panic.
+Proof. vm_compute. reflexivity. Qed.
+
+Example C09_u32_tags_needed :        (* [head; tag 2^32 + 5]: stored as 5, directory no longer ascending *)
+  tables_wf wit_bigtag /\ judged (build_font Debug 65536 wit_bigtag) = Some false.
+Proof. exact wit_bigtag_needed. Qed.
+
+Example C09_release_bound_needed :   (* 4096 tables: release wraps searchRange to 0, debug panics *)
+  In HEAD_TAG (map fst wit_many) /\
+  Forall (fun tb => u32v (fst tb) /\ (fst tb = HEAD_TAG -> head_ok (snd tb))) wit_many /\
+  len wit_many = 4096 /\
+  (exists file, build_from_inserts Release 65536 wit_many = Ok file /\ valid_sfnt file = false) /\
+  build_from_inserts Debug 65536 wit_many = Panic.
+Proof. exact wit_many_needed. Qed.
+
+(* a concrete insertion sequence, computed: the judge accepts it *)
 Definition ex_head : list Z := [0;1;0;0; 0;0;0;0; 0;0;0;0; 95;15;60;245; 1;2].
 Example C09_example :
   match build_from_inserts Debug 65536 [(1886352244, [1;2;3]); (1751474532, ex_head); (1668112752, [])] with
